@@ -84,7 +84,7 @@ func runConservation(e *Env, prop string) {
 	if routing {
 		e.ProbeDecl("colocated-pair", "separated-pair", "sub-batch-split")
 	}
-	e.ProbeDecl("flush-with-stalled-shard", "delivery-while-stalled", "callback-delayed", "reader-backpressure", "multi-shard-flush", "sampled-counter", "negative-counter")
+	e.ProbeDecl("flush-with-stalled-shard", "delivery-while-stalled", "callback-delayed", "reader-backpressure", "multi-shard-flush", "sampled-counter", "negative-counter", "tag-repeated-on-the-wire")
 	cfg := W1Config{
 		Readers:    e.Range(1, 3),
 		Parsers:    e.Range(1, 4),
@@ -128,7 +128,14 @@ func runConservation(e *Env, prop string) {
 		var dps []DP
 		for j := 0; j < n; j++ {
 			id++
-			dps = append(dps, GenDP(e, series[e.Draw(len(series))], ClientIP(c), id))
+			dp := GenDP(e, series[e.Draw(len(series))], ClientIP(c), id)
+			// (not on gauges: two gauge values of one datagram that only become one series in the tag stage
+			// are merged in Go map order there - equal timestamps, either may win - which would not replay)
+			if !routing && len(dp.Tags) > 0 && dp.Type != "g" && e.Chance(1, 8) {
+				dp.WireDupTag = true
+				e.Probe("tag-repeated-on-the-wire")
+			}
+			dps = append(dps, dp)
 		}
 		queues[c] = append(queues[c], &dgram{dps: dps, payload: joinLines(dps, e.Bool())})
 	}
